@@ -225,6 +225,15 @@ def lean_file(path, timeout=3000):
     return p.returncode, p.stdout
 
 
+def leanchecker(modules, timeout=3000):
+    """`lake env leanchecker <modules>`: the toolchain's independent re-checker of the compiled .olean files"""
+    try:
+        p = _run(["lake", "env", "leanchecker"] + list(modules), LEAN, timeout)
+        return p.returncode, p.stdout
+    except Exception as e:  # noqa
+        return 1, repr(e)
+
+
 FORBIDDEN = re.compile(r"\b(sorry|admit|native_decide|bv_decide|implemented_by|unsafe)\b|^\s*axiom\s|maxHeartbeats\s+0\b", re.M)
 
 
